@@ -15,7 +15,10 @@ def parseAtom (j : Json) : R Atom :=
       | .ok v => pure (.float (← asChars v))
       | .error _ =>
         let a ← asList asNat (← fld j "dt")
-        pure (.datetime ⟨a[0]!, a[1]!, a[2]!, a[3]!, a[4]!, a[5]!, a[6]!⟩)
+        let off ← (match j.getObjVal? "off" with
+          | .ok v => do pure (some (← asInt v))
+          | .error _ => pure none)
+        pure (.datetime ⟨⟨a[0]!, a[1]!, a[2]!, a[3]!, a[4]!, a[5]!, a[6]!⟩, off⟩)
   | _ => throw "bad atom"
 
 def atomJson : Atom → Json
@@ -24,7 +27,10 @@ def atomJson : Atom → Json
   | .int n => ofInt n
   | .float r => Json.mkObj [("f", ofChars r)]
   | .str s => ofChars s
-  | .datetime t => Json.mkObj [("dt", ofList ofNat [t.y, t.mo, t.d, t.h, t.mi, t.s, t.us])]
+  | .datetime t =>
+    let n := t.naive
+    Json.mkObj ([("dt", ofList ofNat [n.y, n.mo, n.d, n.h, n.mi, n.s, n.us])] ++
+      (match t.off with | none => [] | some o => [("off", ofInt o)]))
 
 def parseJVal (j : Json) : R JVal :=
   match j with
@@ -66,7 +72,10 @@ def handle (op : String) (j : Json) : Option (R Json) :=
       | .ok t => pure (atomJson (.datetime t))
   | "c09.str_datetime" => some do
       let a ← asList asNat (← fld j "dt")
-      pure (ofChars (strDatetime ⟨a[0]!, a[1]!, a[2]!, a[3]!, a[4]!, a[5]!, a[6]!⟩))
+      let off ← (match j.getObjVal? "off" with
+        | .ok v => do pure (some (← asInt v))
+        | .error _ => pure none)
+      pure (ofChars (strDatetime ⟨⟨a[0]!, a[1]!, a[2]!, a[3]!, a[4]!, a[5]!, a[6]!⟩, off⟩))
   | "c09.from_dict" => some do
       let fields ← asList (fun f => do
           let a ← asArr f
